@@ -374,6 +374,19 @@ class FaultRun:
                     fault = f"update_callable:{slot}:{mode}@{k}/{len(sel)}:{choice}"
                     s.log.append({"op": "FAULT", "fault": fault})
                     self.res.count(f"update_fault_position.{'first' if k == 0 else 'later'}")
+                    if exc is None and mode != "invalid" and sel:
+                        # the callable raised inside the call (whatever the exception type: StopIteration included) and
+                        # the call returned as if nothing had happened: then at least nothing may have been committed
+                        self.res.count("callable_error_swallowed_by_the_call")
+                        try:
+                            post_ = s.contents()
+                        except Exception as e:  # noqa: BLE001
+                            post_ = [("BAD", repr(e))]
+                        if post_ != [p_.canon() for p_ in s.model.points]:
+                            self.violate(s, "callable-error-swallowed-and-partial-result-committed",
+                                         {"fault": fault, "expected": repr([p_.canon() for p_ in s.model.points])[:500], "observed": repr(post_)[:500]},
+                                         {"fault": "update_callable", "mode": mode})
+                            return
                     if not self.after_fault(s, fault, exc, list(s.model.points), sel=sel, k=k, slot=slot):
                         return
         self.continue_history(s, "update_callable")
